@@ -179,10 +179,11 @@ def gen_case(rnd, spec):
     return {
         "elements": elements,
         "fail_at": fail_at,
-        "fail_type": rnd.choice(["Injected", "KeyError", "ValueError", "AttributeError", "LookupError", "RuntimeError", "OSError", "IndexError"]),
+        "fail_type": rnd.choice(["Injected", "KeyError", "ValueError", "AttributeError", "LookupError", "RuntimeError", "OSError", "IndexError", "StopIteration", "StopIteration", "StopAsyncIteration", "AssertionError"]),
         "extra": rnd.choice([None, None, "{a: 1, b: [x, y]}", "[1, 2]"]),
         "logging": rnd.random() < 0.25,
         "suffix": rnd.choice([".yaml", ".yml"]),
+        "reload": rnd.random() < 0.1,
     }
 
 
@@ -337,6 +338,12 @@ def execute(case, result):
     with tempfile.NamedTemporaryFile("w", suffix=case["suffix"], prefix="cobald-verif-", delete=False) as f:
         f.write(text)
         path = f.name
+    if case.get("reload"):
+        # the plugin module was loaded anew since the last configuration (an upgrade, a test run): names mean what they mean now
+        import importlib
+
+        importlib.reload(vplug)
+        result.count("documents_loaded_after_the_plugin_module_was_reloaded")
     vplug.reset(fail_at=case["fail_at"], fail_type=case.get("fail_type", "Injected"))
     err, config = None, None
     try:
@@ -394,6 +401,9 @@ def execute(case, result):
         want = "VPool" if e["cls"] == "VPoolNow" else e["cls"]
         if isinstance(obj, Partial) or type(obj).__name__ != want:
             problems.append("element %d is %r, configured %s" % (i, obj, want))
+            continue
+        if type(obj) is not getattr(vplug, want):
+            problems.append("element %d is an instance of a class called %s, but not of the class that vplug.%s names now" % (i, want, want))
             continue
         if i < n - 1 and getattr(obj, "target", None) is not pipeline[i + 1]:
             problems.append("element %d: target is %r, not the next element %r" % (i, getattr(obj, "target", None), pipeline[i + 1]))
@@ -483,7 +493,7 @@ def run_shard(spec):
 
 def finish(total, tier):
     for name in ("documents_valid", "documents_with_failing_constructor", "elements_tag_map", "elements_tag_list", "elements_tag_bare",
-                 "elements_type_map", "nested_eager_tags_checked", "tails_built_while_reading", "pipelines_compared_with_rshift", "pipelines_of_5_or_more_compared_with_left_grouped_rshift", "elements_with_an_argument_that_holds_itself",
+                 "elements_type_map", "nested_eager_tags_checked", "tails_built_while_reading", "pipelines_compared_with_rshift", "documents_loaded_after_the_plugin_module_was_reloaded", "pipelines_of_5_or_more_compared_with_left_grouped_rshift", "elements_with_an_argument_that_holds_itself",
                  "extra_sections_digested", "elements_with_nested_type_helper", "failing_constructor_raising_KeyError", "elements_with_merge_key", "elements_whose_truth_value_is_false", "type_elements_named_below_a_class", "pipelines_of_more_than_1000_elements", "construction_logs_matching_the_pipeline"):
         if not total.counters.get(name) and not total.violations:
             total.inconc("monitor never observed: " + name)
